@@ -98,10 +98,13 @@ def check_history(case, acc, printed_mode="all"):
     acc.trans(1)
     try:
         fake = gm.FakeRepo(gm.c06_repo_spec(case))
-        coll = gm.ghist.ReposCollection({"comp_1": gm.ModelProjectRepo("comp_1", fake, "origin")})
-        report = coll.make_report(gm.SEARCH_TEXT)
+        with gm.cpu_limit(5.0):
+            coll = gm.ghist.ReposCollection({"comp_1": gm.ModelProjectRepo("comp_1", fake, "origin")})
+            report = coll.make_report(gm.SEARCH_TEXT)
         (_rid, rgraph), = report.data
         observed = gm.observe_rgraph(rgraph)
+    except gm.Hang:
+        return [("hangs", "make_report does not terminate (5 s CPU)", "no result", "a report")], exp, None
     except Exception as e:  # noqa
         return [(f"raises-{type(e).__name__}", f"make_report raised {type(e).__name__}: {e}", repr(e), "a report")], exp, None
     problems = gm.c06_judge(parents, heads, tags, match, observed, exp)
@@ -181,6 +184,11 @@ def run_shard(shard, tier, seed, acc):
                         acc.sample(case)
                     if problems:
                         _report(acc, case, problems)
+                        if any(p[0] == "hangs" for p in problems):
+                            acc.note_sum("hangs", 1)
+                            if acc.extra.get("sum_hangs", 0) >= 3:      # each hang costs the whole CPU limit
+                                acc.capped = True
+                                return
 
 
 def replay(case, acc):
